@@ -32,7 +32,8 @@ def slices(tier):
         # two extra vectors with spe > 0 competing against dup / hgt (the speciation cost must be charged)
         # and two with a transfer far more expensive than a duplication plus the losses of one lifted node, where a
         # transfer only pays off by sparing several ancestors at once
-        return [("P4x3/core+4", spaces.shape_pairs(4, 3), core + [(2, 1, 2, 1, 1), (1, 1, 2, 0, 1), (0, 1, 6, 1, 1), (0, 1, 4, 1, 1)]),
+        return [("P4x3/core+4", spaces.shape_pairs(4, 3), core + [(2, 1, 2, 1, 1), (1, 1, 2, 0, 1), (0, 1, 6, 1, 1), (0, 1, 4, 1, 1),
+                         (0, 10 ** 10, 10 ** 10 + 3, 1, 1)]),      # huge magnitudes, alternatives differing by 3 units
                 ("P4x4cat/bighgt", [p for p in spaces.shape_pairs(4, 4, min_obj=4, min_sp=4)],
                  [(0, 1, 8, 1, 1), (0, 2, 8, 1, 1), (0, 1, 1, 1, 1)]),   # + default costs: transfers nested under both root children
                 # deep species trees, a transfer twice as dear as a duplication or a loss: a speciation two levels above a
